@@ -246,6 +246,12 @@ func writeSourceRev(t *tape.Tape, nodes []*node) ([]byte, bool) {
 func writeSourceLib(t *tape.Tape, nodes []*node, version pdf.Version, pw string) ([]byte, error) {
 	disk := simdisk.NewDisk()
 	var err error
+	// Some streams opt out of encryption with an explicit /Crypt /Identity
+	// filter (PDF >= 1.5).  Afterwards the name /Crypt in their /Filter array
+	// may be replaced by a same-length indirect reference "9 0 R " to an
+	// object holding that name: a form the Writer cannot emit itself.
+	cryptIdentity := version >= pdf.V1_5 && t.Bool("src.cryptidentity", 1, 2)
+	indirectCrypt := cryptIdentity && t.Bool("src.indirectcrypt", 1, 2)
 	wprog.WithSeededRand(t.Sub("src.rand"), func() {
 		var w *pdf.Writer
 		w, err = pdf.NewWriter(disk.Sink(simdisk.Seekable), version, &pdf.WriterOptions{UserPassword: pw, UserPermissions: pdf.PermAll})
@@ -269,6 +275,9 @@ func writeSourceLib(t *tape.Tape, nodes []*node, version pdf.Version, pw string)
 				case "AHx":
 					filters = []pdf.Filter{pdf.FilterASCIIHex{}}
 				}
+				if cryptIdentity && nd.filter != "JBIG2" && t.Bool(fmt.Sprintf("src.ci%d", nd.ref.Number()), 1, 2) {
+					filters = append([]pdf.Filter{pdf.FilterCryptIdentity{}}, filters...)
+				}
 				var ws io.WriteCloser
 				ws, err = w.OpenStream(nd.ref, sdict, filters...)
 				if err != nil {
@@ -282,11 +291,20 @@ func writeSourceLib(t *tape.Tape, nodes []*node, version pdf.Version, pw string)
 				return
 			}
 		}
+		if indirectCrypt {
+			if err = w.Put(pdf.NewReference(9, 0), pdf.Name("Crypt")); err != nil {
+				return
+			}
+		}
 		pages := pdf.NewReference(pagesNum, 0)
 		w.Put(pages, pdf.Dict{"Type": pdf.Name("Pages"), "Kids": pdf.Array{}, "Count": pdf.Integer(0)})
 		w.GetMeta().Catalog.Pages = pages
 		err = w.Close()
 	})
+	if err == nil && indirectCrypt {
+		// same length, so that no offset changes
+		disk.Data = bytes.ReplaceAll(disk.Data, []byte("[/Crypt"), []byte("[9 0 R "))
+	}
 	return disk.Data, err
 }
 
@@ -304,7 +322,8 @@ func Run(e *core.Env) {
 		var err error
 		srcImg, err = writeSourceLib(t, nodes, srcVersion, srcPW)
 		if err != nil {
-			e.Skip("source rejected by Writer: " + err.Error())
+			e.Skip("source rejected by Writer")
+			e.Note("writer error", err.Error())
 			return
 		}
 	} else {
@@ -317,7 +336,8 @@ func Run(e *core.Env) {
 	}
 	sr, err := pdf.NewReader(simdisk.NewHandle(srcImg), int64(len(srcImg)), &pdf.ReaderOptions{Password: srcPW})
 	if err != nil {
-		e.Skip("source does not open: " + err.Error())
+		e.Skip("source does not open")
+		e.Note("open error", err.Error())
 		return
 	}
 
